@@ -486,7 +486,7 @@ pub fn run() {
     if let Some((b, _, _)) = set.first() {
       let others: Vec<(NameParts, Value, String)> = set.iter().skip(1).cloned().collect();
       for sp in b.spellings() {
-        for t in &bt {
+        for (t, shadow) in bt.iter().flat_map(|t| [(t, false), (t, true)]) {
           let text = t.replace('B', &sp);
           // expected: the binder renamed to a fresh single word
           cnt.cases.fetch_add(1, Ordering::Relaxed);
@@ -495,6 +495,10 @@ pub fn run() {
           for (n, v, lit) in &others {
             ctx.set_entry(&Name::from(n.normal().as_str()), v.clone());
             subst.insert(n.normal(), lit.clone());
+          }
+          // shadowing: the introduced name is also bound outside, to another value; the innermost binding must win
+          if shadow {
+            ctx.set_entry(&Name::from(b.normal().as_str()), num(999));
           }
           subst.insert(b.normal(), "zq".to_string());
           let scope = Scope::from(ctx);
@@ -515,7 +519,7 @@ pub fn run() {
           if !ok {
             let names: Vec<String> = others.iter().map(|(n, _, _)| n.normal()).collect();
             run.violation(
-              &format!("binder:`{}`:{}:set-of-{}", t, symbol_class(b), set.len()),
+              &format!("binder{}:`{}`:{}:set-of-{}", if shadow { "-shadowing-an-outer-binding" } else { "" }, t, symbol_class(b), set.len()),
               &format!(
                 "`{}` (other bound names {:?}) evaluates to {} but with the introduced name renamed, `{}`, it evaluates to {}",
                 text,
@@ -524,7 +528,7 @@ pub fn run() {
                 expected_text,
                 show_value(&expected)
               ),
-              json!({"engine":"c10","text":text,"bound_names":names,"bound_literals":others.iter().map(|(n, _, lit)| json!([n.normal(), lit])).collect::<Vec<_>>(),"expected_text":expected_text,"expected":expected.to_string(),"template":t}),
+              json!({"engine":"c10","text":text,"bound_names":names,"bound_literals":others.iter().map(|(n, _, lit)| json!([n.normal(), lit])).chain(if shadow { Some(json!([b.normal(), "999"])) } else { None }).collect::<Vec<_>>(),"expected_text":expected_text,"expected":expected.to_string(),"template":t}),
             );
           }
         }
